@@ -1,6 +1,8 @@
 package main
 
 import (
+	"path/filepath"
+	"os"
 	"go/ast"
 	"go/token"
 	"go/types"
@@ -932,6 +934,40 @@ func runC03(c *Ctx) {
 			"Pubkey = marshalled public part of the signing key, Sig = the signature produced", "Sign does not store the signing key's public part and the produced signature")
 	}
 	c.Floor("C03.V2-payload-agreement", 3)
+	// a head without its CID is refused where it is decoded: Sign and Validate take the head link's CID without a
+	// test, so the schema must make the link mandatory (declared optional, a response with the field removed decodes
+	// and the unchecked assertion panics in the syncing process instead of the head being rejected)
+	{
+		unchecked := 0
+		if p := c.pkg(headPkg); p != nil {
+			for _, f := range c.Funcs(headPkg) {
+				instrs(f.SSA, func(in ssa.Instruction) {
+					if ta, ok := in.(*ssa.TypeAssert); ok && !ta.CommaOk {
+						if x := c.E(ta.X); x.Op == "field" && x.Name == "Head" {
+							unchecked++
+						}
+					}
+				})
+			}
+		}
+		optional := false
+		files, _ := filepath.Glob(filepath.Join(c.Repo, headPkg, "*.ipldsch"))
+		nSch := 0
+		for _, sf := range files {
+			if data, err := os.ReadFile(sf); err == nil {
+				for _, fs := range ipldOptional(string(data)) {
+					nSch++
+					for f := range fs {
+						if strings.EqualFold(f, "head") {
+							optional = true
+						}
+					}
+				}
+			}
+		}
+		c.Check(nSch > 0 && (unchecked == 0 || !optional), "C03.V2-head-link-mandatory", "head schema › head link", token.NoPos, "the head link is mandatory in the schema (its CID is taken without a test in "+itoa(unchecked)+" places)", "the schema lets the head link be absent while the code takes its CID without a test: a response with the link removed is not rejected but panics")
+		c.Floor("C03.V2-head-link-mandatory", 1)
+	}
 
 	// ---- V3 GetHead ---------------------------------------------------------------------------------
 	c03GetHead(c, validate)
@@ -1113,7 +1149,18 @@ func preservesPeerID(c *Ctx, fn *ssa.Function) (bool, string) {
 			if fa, ok := in.Addr.(*ssa.FieldAddr); ok && fa.X == ssa.Value(cell) && cell != nil {
 				if c.E(fa).Name == "ID" {
 					// storing an ID is fine only when the ID was empty (adopting the ID found in an address)
-					if _, g := c.Guarded(in, Bin("==", Field("ID", Any()), Const(`""`)), true); !g {
+					_, g := c.Guarded(in, Bin("==", Field("ID", Any()), Const(`""`)), true)
+					if !g {
+						// ID = cmp.Or(ID, found): the first non-empty of the two — the ID given wins
+						if v := c.E(in.Val); v.Op == "call" && strings.HasPrefix(v.Name, "cmp.Or[") && len(v.Args) == 1 {
+							if es := variadicElems(c, v.Args[0]); len(es) >= 1 {
+								if e0 := strip(es[0]); e0 != nil && e0.Op == "field" && e0.Name == "ID" {
+									g = true
+								}
+							}
+						}
+					}
+					if !g {
 						bad = "ID field of the peer info is overwritten at " + c.pos(in.Pos())
 					}
 				}
